@@ -265,8 +265,14 @@ pub fn run(ctx: &mut Ctx) {
     };
     ctx.sample(|| format!("descriptions of the {} failure kinds: {:?}", N_KINDS, want));
     let thorough = ctx.tier == "thorough";
+    let reduced = ctx.tier == "miri" || ctx.tier == "tsan";
     // (a) every interleaving of 2 threads x 4 steps (70) and 3 threads x 3 steps (1680), several script sets
-    let sets: Vec<(Vec<usize>, u64)> = vec![(vec![4, 4], if thorough { 40 } else { 6 }), (vec![3, 3, 3], if thorough { 6 } else { 1 })];
+    let sets: Vec<(Vec<usize>, u64)> = if reduced {
+        // interpreters / sanitizers: all 20 interleavings of 2 x 3 steps and all 90 of 3 x 2 steps
+        vec![(vec![3, 3], 1), (vec![2, 2, 2], 1)]
+    } else {
+        vec![(vec![4, 4], if thorough { 40 } else { 6 }), (vec![3, 3, 3], if thorough { 6 } else { 1 })]
+    };
     let mut jobs: Vec<(Vec<usize>, u64, Vec<usize>)> = vec![];
     for (lens, reps) in &sets {
         let il = interleavings(lens);
@@ -317,9 +323,9 @@ pub fn run(ctx: &mut Ctx) {
         }
     }
     // (b) free-running stress
-    let nthreads = 16;
-    let steps = ctx.scaled(if thorough { 400_000 } else { 40_000 }) as usize;
-    let runs = ctx.phase("stress", 4);
+    let nthreads = if ctx.tier == "miri" { 3 } else { 16 };
+    let steps = if ctx.tier == "miri" { 40 } else { ctx.scaled(if thorough { 400_000 } else if ctx.tier == "tsan" { 4_000 } else { 40_000 }) as usize };
+    let runs = ctx.phase("stress", if reduced { 1 } else { 4 });
     for r in runs {
         ctx.begin_case(r);
         let start = Arc::new(Barrier::new(nthreads));
